@@ -18,6 +18,6 @@ INVARIANT TypeOK
 INVARIANT SeqSane
 INVARIANT NotYetWritten
 INVARIANT CurIsWinner
-INVARIANT AccountedModuloDrop
+INVARIANT SequencesAccounted
 INVARIANT DevExport
 CHECK_DEADLOCK FALSE
